@@ -424,3 +424,14 @@ const prelude = `(set-option :produce-models true)
 (define-fun be16 ((a (Array Int Int)) (o Int)) Int (+ (* 256 (select a o)) (select a (+ o 1))))
 (define-fun be64 ((a (Array Int Int)) (o Int)) Int (+ (* 4294967296 (be32 a o)) (be32 a (+ o 4))))
 `
+
+// nameTag: a distinct integer literal per event name (FNV-1a, 48 bits), so that
+// `!called("X")` cannot be satisfied or refuted by aliasing X with another name.
+func nameTag(name string) string {
+	var h uint64 = 14695981039346656037
+	for i := 0; i < len(name); i++ {
+		h ^= uint64(name[i])
+		h *= 1099511628211
+	}
+	return fmt.Sprint(1 + h%(1<<48))
+}
